@@ -253,11 +253,11 @@ theorem pending_while_sending (env : Env) (d : Desc) (b : Bundle) (n : Node) (it
   have hpr : D.cons.pendingRule = true := by rw [← hD]; simp [Cons.pendingRule, hrp]
   have h1 := sync_update D n it (by rw [hDk]; exact hg) hne
   have h2 := selectSenders_rt env D b (sync D n)
-  rcases h2.item _ h1 with ⟨it2, g2, b2, e2, _, _, p2⟩
+  rcases h2.item _ h1 with ⟨it2, g2, b2, e2, _, _, p2, _⟩
   have hdesc : (selectSenders env D b (sync D n)).2.2.1.key = D.key := (selectSenders_desc env D b (sync D n)).1
   have h3 := sendAll_rt env (selectSenders env D b (sync D n)).2.2.1 b ps (selectSenders env D b (sync D n)).2.2.2
   rw [hdesc] at h3
-  rcases h3.item _ g2 with ⟨it3, g3, b3, e3, _, _, p3⟩
+  rcases h3.item _ g2 with ⟨it3, g3, b3, e3, _, _, p3, _⟩
   refine ⟨it3, by rw [← hDk]; exact g3, p3 (p2 hpr), ?_, ?_⟩
   · rw [b3, b2]
   · rw [e3, e2]
